@@ -26,4 +26,6 @@ var verifHarnesses = map[string]func(){
 	"VerifC14RemoveAndGov": VerifC14RemoveAndGov,
 	"VerifC11Delete": VerifC11Delete,
 	"VerifC11Stop": VerifC11Stop,
+	"VerifC19ChainIdThenLaunch": VerifC19ChainIdThenLaunch,
+	"VerifC19LaunchMany": VerifC19LaunchMany,
 }
